@@ -829,6 +829,10 @@ class DocTest:
                     self._partfilename = '<doctest:' + self.node + '>'
                     source_text = part.compilable_source()
 
+                    # A __future__ import executed by an earlier part of this
+                    # doctest also holds for its later parts
+                    compileflags |= self._extract_future_flags(test_globals)
+
                     code = compile(
                         source_text, mode=part.compile_mode,
                         filename=self._partfilename,
